@@ -253,6 +253,12 @@ func runJobs(repo string, jobs []Job, nworkers int, jobTimeout time.Duration) []
 						w = nil
 					} else {
 						results[i] = x.r
+						// recycle a worker whose heap has grown large (concurrent-mode jobs
+						// with millions of schedules): 16 workers must fit the machine
+						if x.r.HeapMB > 1800 {
+							w.stop()
+							w = nil
+						}
 					}
 				case <-time.After(jobTimeout):
 					results[i] = &JobResult{Job: jobs[i], Crash: "job timeout after " + jobTimeout.String()}
